@@ -1215,6 +1215,15 @@ class Engine(object):
                         for pp in parts[1:-1]:
                             o = o.items[int(pp)] if isinstance(o, PList) else o.fields[pp]
                         o.fields[parts[-1]] = self.fresh_of_type(ex, ty, path, env)
+                if isinstance(split_expr, dict) and split_expr.get("alias"):
+                    # this case is about a call in which one argument IS an object reachable from another
+                    for pname, path in split_expr["alias"].items():
+                        parts = path.split(".")
+                        o = env[parts[0]]
+                        for pp in parts[1:]:
+                            o = o.items[int(pp)] if isinstance(o, PList) else o.fields[pp]
+                        env[pname] = o
+                    penv = dict(env)
                 if isinstance(split_expr, dict) and split_expr.get("module_state"):
                     for path, expr in split_expr["module_state"].items():
                         modname, _, attr = path.rpartition(".")
